@@ -1,11 +1,11 @@
 import SqlProofs.CteShape.Skeletons
-import SqlProofs.CteShape.Table.T00  -- build-order only (three lanes: a decided lemma of ten WITH statements needs 5-6 GB)
-/-! CTE skeleton table, entries 30 … 39: kernel evaluation of the real lexer rules, `groupStatement` and `getType` -/
+import SqlProofs.CteShape.Table.T00  -- build-order only (three lanes: a decided lemma of five WITH statements needs about 5 GB)
+/-! CTE skeleton table, entries 15 … 19: kernel evaluation of the real lexer rules, `groupStatement` and `getType` -/
 namespace Sql
 namespace Acc
 
 set_option maxRecDepth 1000000 in
-theorem cte_030 : ((cteSkels.drop 30).take 10).all cteCheck = true := by decide +kernel
+theorem cte_015 : ((cteSkels.drop 15).take 5).all cteCheck = true := by decide +kernel
 
 end Acc
 end Sql
